@@ -208,10 +208,10 @@ def gen_case(rng, prof):
     # horizon
     tk = rng.choice(prof.get('horizon', ['num']))
     if tk == 'num':
-        d['t0'] = ('num', Fr(rng.randint(-2, 4), 2))
+        d['t0'] = ('num', Fr(rng.randint(1, 5), 2))   # positive: no node time is 0, so `t*u == c` is never constant
         d['T'] = ('num', Fr(rng.randint(1, 8), 2))
     elif tk == 'freeT':
-        d['t0'] = ('num', Fr(rng.randint(-2, 4), 2))
+        d['t0'] = ('num', Fr(rng.randint(1, 5), 2))   # positive: no node time is 0, so `t*u == c` is never constant
         d['T'] = ('free', Fr(rng.randint(1, 8), 2))
     elif tk == 'freet0':
         d['t0'] = ('free', Fr(rng.randint(-2, 4), 2))
